@@ -429,6 +429,15 @@ func (x *Exec) havocLoop(st *State, fr *Frame, header *ssa.BasicBlock, ord int) 
 	ws := x.loopWriteSet(st, fr, header)
 	x.inLoopHavoc = true
 	defer func() { x.inLoopHavoc = false }()
+	// objects that exist when the loop is entered keep their dynamic type whatever the body allocates
+	typStable := func() {}
+	if ws.all || ws.names["typ"] {
+		oldTyp, preAlloc := x.typArr(st), st.alloc
+		typStable = func() {
+			_, nt := x.heapHavoc(st, "typ", "(Array Int Int)")
+			st.assume(fmt.Sprintf("(forall ((r Int)) (! (=> (<= r %s) (= (select %s r) (select %s r))) :pattern ((select %s r))))", preAlloc, nt, oldTyp, nt))
+		}
+	}
 	if ws.all {
 		keep := map[string]string{}
 		bounds := map[string]string{}
@@ -458,6 +467,7 @@ func (x *Exec) havocLoop(st *State, fr *Frame, header *ssa.BasicBlock, ord int) 
 			x.heapHavoc(st, n, sort)
 		}
 	}
+	typStable()
 	// allocation may have grown
 	na := x.freshConst("alloc", "Int")
 	st.assume(app("<=", st.alloc, na))
